@@ -63,7 +63,7 @@ func (env *SpecEnv) sub() *SpecEnv {
 func (x *Exec) specBool(s *State, fr *Frame, e *Expr, extra map[string]Val) (*Term, error) {
 	env := &SpecEnv{x: x, s: s, fr: fr, names: extra, fnPkg: pkgOf(fr.fn)}
 	if x.fn == fr.fn {
-		env.old = &SpecEnv{x: x, s: s, names: x.params, heap: x.entryHeap, alloc: x.entryAlloc, fnPkg: pkgOf(fr.fn)}
+		env.old = &SpecEnv{x: x, s: s, fr: fr, names: x.params, heap: x.entryHeap, alloc: x.entryAlloc, fnPkg: pkgOf(fr.fn)}
 		env.entryAlloc = x.entryAlloc
 	}
 	return env.boolExpr(e)
@@ -231,6 +231,13 @@ func (env *SpecEnv) eval(e *Expr) (Val, error) {
 			return Val{}, err
 		} else if ok {
 			return v, nil
+		}
+		if gs, ok := x.eng.cs.Ghost[e.Name]; ok {
+			srt, _, err := env.parseSort(gs)
+			if err != nil {
+				return Val{}, err
+			}
+			return Val{T: env.heapGet("X$"+e.Name, SArr(SInt, srt))}, nil
 		}
 		if c, ok := specConsts[e.Name]; ok {
 			n, _ := new(big.Int).SetString(c, 10)
@@ -955,6 +962,22 @@ func (env *SpecEnv) evalCall(e *Expr) (Val, error) {
 			return Val{}, err
 		}
 		return Val{T: ifTag(a.T)}, nil
+	case "nilIface":
+		return Val{T: nilIface}, nil
+	case "iface":
+		// the interface value obtained by converting a Go-typed value (boxing)
+		a, err := env.eval(e.Args[0])
+		if err != nil {
+			return Val{}, err
+		}
+		if a.GoT == nil {
+			return Val{}, fmt.Errorf("iface() needs a Go-typed value")
+		}
+		t, err := x.makeIface(env.s, a, a.GoT)
+		if err != nil {
+			return Val{}, err
+		}
+		return Val{T: t}, nil
 	case "store":
 		if err := argN(3); err != nil {
 			return Val{}, err
@@ -1139,10 +1162,30 @@ func (env *SpecEnv) assignLocs(e *Expr) ([]assignLoc, error) {
 			{key: lk, ref: a.T, text: e.String(), sort: SArr(SInt, SInt)}}, nil
 	case e.Kind == eCall && e.Name == "heap" && len(e.Args) == 1:
 		return []assignLoc{{key: x.heapKeyFromText(e.Args[0]), text: e.String()}}, nil
+	case e.Kind == eCall && e.Name == "ghost" && len(e.Args) == 1 && e.Args[0].Kind == eIdent:
+		gs, ok := x.eng.cs.Ghost[e.Args[0].Name]
+		if !ok {
+			return nil, fmt.Errorf("unknown ghost heap %s", e.Args[0].Name)
+		}
+		srt, _, err := env.parseSort(gs)
+		if err != nil {
+			return nil, err
+		}
+		return []assignLoc{{key: "X$" + e.Args[0].Name, text: e.String(), sort: SArr(SInt, srt)}}, nil
 	case e.Kind == eCall && e.Name == "global" && len(e.Args) == 1:
 		if env.fnPkg != nil {
 			return []assignLoc{{key: "G$" + cleanName(env.fnPkg.Name()+"."+e.Args[0].Name), text: e.String()}}, nil
 		}
+	case e.Kind == eIndex && e.Args[0].Kind == eIdent && x.eng.cs.Ghost[e.Args[0].Name] != "":
+		srt, _, err := env.parseSort(x.eng.cs.Ghost[e.Args[0].Name])
+		if err != nil {
+			return nil, err
+		}
+		r, err := env.eval(e.Args[1])
+		if err != nil {
+			return nil, err
+		}
+		return []assignLoc{{key: "X$" + e.Args[0].Name, ref: r.T, text: e.String(), sort: SArr(SInt, srt)}}, nil
 	case e.Kind == eUn && e.Op == "*":
 		a, err := env.eval(e.Args[0])
 		if err != nil {
